@@ -244,6 +244,41 @@ def run_C14(ctx):
                               dict(grammar=name, target=tn, grammar_text=text, grammar_sha=vlib.sha(text), runs=len(rs), distinct=len(hs), observed=diff), interface='I10')
             elif len(ctx.samples) < 5:
                 ctx.sample(dict(grammar=name, target=tn, runs=len(rs), sha256=hs[0][1], exit=hs[0][0]))
+        # several generations in one process ("twice ... in the same or in different processes"): every output must be the
+        # one a fresh process produces for the same file and options, whatever was generated before in that process
+        rnd = random.Random(ctx.seed + 3)
+        ref = {}
+        for (name, tn, rc, h, out) in res:
+            if rc == 0 and h:
+                ref.setdefault((name, tn), h)
+        gindex = {name: gi for gi, (name, _, _) in enumerate(texts)}
+        seqs = []
+        for (name, gotext, tstext) in texts:
+            if name.startswith('ex_'):
+                continue
+            modes = [t[0] for t in TARGETS if t[0] != 'ts' and (name, t[0]) in ref]
+            if len(modes) < 2:
+                continue
+            seq = [rnd.choice(modes) for _ in range(rnd.randint(3, 6))]
+            seqs.append((name, os.path.join(work, 'g%d_go.y' % gindex[name]), seq))
+            if len(seqs) >= (40 if ctx.quick else 400):
+                break
+        r = vlib.sh([os.path.join(bindir, 'genseq')], input=''.join(json.dumps(dict(file=f, seq=q)) + '\n' for (_, f, q) in seqs), timeout=1200)
+        outs = [json.loads(l) for l in r.stdout.splitlines() if l.startswith('[')]
+        nseq = 0
+        for (name, f, seq), o in zip(seqs, outs):
+            nseq += 1
+            ctx.evaluations += len(seq)
+            for k, (mode, h) in enumerate(zip(seq, o)):
+                if h != ref.get((name, mode)):
+                    text = tx[name][0]
+                    ctx.violation('counterexample', 'grammar %s: generation #%d (%s) of the sequence %s in one process gives %s, a fresh process gives %s for the same file and options'
+                                  % (name, k + 1, mode, seq, h[:16], (ref.get((name, mode)) or '?')[:16]),
+                                  dict(grammar=name, target=mode, sequence=seq, grammar_text=text, grammar_sha=vlib.sha(text), observed=h, expected=ref.get((name, mode))), interface='I10')
+                    break
+        if len(outs) != len(seqs):
+            ctx.violation('no-failing-input-found', 'the in-process generation harness answered %d of %d sequences: %s' % (len(outs), len(seqs), r.stderr[-300:]), {}, interface='I10')
+        ctx.extra['in_process_sequences'] = nseq
         ctx.extra['runs_per_case'] = nruns
         ctx.extra['grammars'] = len(texts)
     finally:
@@ -295,6 +330,21 @@ def c13_texts(ctx):
     for k, ch in enumerate(['\u0663', '\uff11', '\u0967', '\u00e9', '\u4e2d', '\u00b2']):
         for j, tmpl in enumerate(['%%token A %s\n%%%%\na : A ;\n', '%%token A\n%%%%\na : A %s ;\n', '%%token %s\n%%%%\na : %s ;\n', "%%token A\n%%%%\na : '%s' A ;\n", '%s', '%%token A 1%s\n%%%%\na : A ;\n', '%%token A\n%%%%\na : A { $%s } ;\n']):
             texts.append(('u%d_%d' % (k, j), (tmpl.replace('%s', ch).replace('%%', '%')).encode()))
+    # whole grammars that reach table construction with crowded table cells: every operator without associativity,
+    # pasted (duplicate) alternatives, unit cycles -- several reductions and a shift compete for one lookahead
+    for k in range(150 if ctx.quick else 2000):
+        g = gram.random_grammar(rnd, nT=rnd.randint(1, 4), nN=rnd.randint(1, 3), p_prec=1.0, max_alts=4, p_term=rnd.choice([0.3, 0.5]))
+        g['precs'] = [(rnd.choice(['nonassoc', 'precedence', 'nonassoc', kind]), ts) for (kind, ts) in g['precs']]
+        for _ in range(rnd.randint(0, 2)):
+            r = rnd.choice(g['rules'])
+            g['rules'].insert(rnd.randrange(len(g['rules']) + 1), dict(r, rhs=list(r['rhs']), coef=list(r['coef'])))
+        if rnd.random() < 0.5:
+            g = gram.operator_grammar(rnd)
+            g['precs'] = [(rnd.choice(['nonassoc', 'precedence', kind]), ts) for (kind, ts) in g['precs']]
+            for _ in range(rnd.randint(1, 2)):
+                r = rnd.choice(g['rules'])
+                g['rules'].append(dict(r, rhs=list(r['rhs']), coef=list(r['coef'])))
+        texts.append(('k_%d' % k, genrun.go_text(genrun.fix_tags(g), 'main', False).encode()))
     for name, t in base:
         b = t.encode()
         if ctx.quick:
@@ -371,10 +421,16 @@ def run_C13(ctx):
         ctx.extra['outcome_classes'] = {'/'.join(k): v for k, v in sorted(classes.items())}
         # the lexer model (total by construction, fuel |input|+1 proved sufficient) against the real lexer on the same texts
         import lexmodel
+        # (texts on which a generator entry point already ran into the deadline are reported above and left out here:
+        # the dump tool would run into the same hang once per text)
+        live = [i for i, p in enumerate(paths) if not (res.get(p) or {}).get('timeout')]
+        all_texts, all_paths = texts, paths
+        texts, paths = [all_texts[i] for i in live], [all_paths[i] for i in live]
         ctx.extra['lexer_model'] = lexmodel.compare(ctx, [b for (_, b) in texts], paths, 'C13')
         # the parser model (every loop on fuel; it must never run out of it) against the real parser's AST on the same texts
         import parsemodel
         ctx.extra['parser_model'] = parsemodel.compare(ctx, [b for (_, b) in texts], paths, label='C13')
+        texts, paths = all_texts, all_paths
         # the real CLI in separate processes on a sample (process-level: exit, no hang)
         rnd = random.Random(ctx.seed + 77)
         sample = [i for i, (n, _) in enumerate(texts) if n.startswith('t')] + rnd.sample(range(len(texts)), min(len(texts), 60 if ctx.quick else 600))
